@@ -272,6 +272,18 @@ def oracle(case, r):
     rb, d, err = run_diff(case)
     out = []
     old, new, pre = restricted(case, rb)
+    # "restricted to lines the rulebook knows" must not be decided by the code under test alone: what apply_diff_rb keeps
+    # against the rule language's reading of the rule text
+    try:
+        rr = rbgen.ref_rules(case["ptext"])
+        for side, kept, given in (("old", old, case["old"]), ("new", new, case["new"])):
+            ref = rbgen.ref_restricted(given, rr)
+            if rbgen.to_list(kept) != ref:
+                out.append(dict(sig="rulebook-knows-other-lines", what="apply_diff_rb keeps %r of %s, the rule language says the "
+                                "rulebook knows %r" % (rbgen.to_list(kept)[:3], side, ref[:3])))
+                break
+    except rbgen.RefOutside:
+        pass
     cmp_level(proj(d, "removed"), new, pre, old, (), "new", out, False)
     cmp_level(proj(d, "added"), old, pre, new, (), "old", out, False)
     ops_exact(d, old, new, (), out)
